@@ -7,11 +7,23 @@
 #include "cc.h"
 
 /* 6.8.1 Labeled statements */
+/* is every variably modified scope that holds the label also one that holds the jump? */
+static bool
+vmvisible(struct vmscope *label, struct vmscope *jump)
+{
+	for (; jump != label; jump = jump->parent) {
+		if (!jump)
+			return false;
+	}
+	return true;
+}
+
 static bool
 label(struct func *f, struct scope *s)
 {
 	char *name;
 	struct gotolabel *g;
+	struct gotouse *u;
 	struct block *b;
 	struct type *t;
 	unsigned long long i;
@@ -22,6 +34,8 @@ label(struct func *f, struct scope *s)
 		next();
 		if (!s->switchcases)
 			error(&tok.loc, "'case' label must be in switch");
+		if (s->vm != s->switchcases->vm)
+			error(&tok.loc, "'case' label in the scope of an identifier with variably modified type");
 		b = mkblock("switch_case");
 		funclabel(f, b);
 		i = intconstexpr(s, true);
@@ -41,6 +55,8 @@ label(struct func *f, struct scope *s)
 			error(&tok.loc, "'default' label must be in switch");
 		if (s->switchcases->defaultlabel)
 			error(&tok.loc, "multiple 'default' labels");
+		if (s->vm != s->switchcases->vm)
+			error(&tok.loc, "'default' label in the scope of an identifier with variably modified type");
 		expect(TCOLON, "after 'default'");
 		s->switchcases->defaultlabel = mkblock("switch_default");
 		funclabel(f, s->switchcases->defaultlabel);
@@ -53,6 +69,11 @@ label(struct func *f, struct scope *s)
 		if (g->defined)
 			error(&tok.loc, "duplicate label '%s'", name);
 		g->defined = true;
+		g->vm = s->vm;
+		for (u = g->uses; u; u = u->next) {
+			if (!vmvisible(g->vm, u->vm))
+				error(&tok.loc, "label '%s' is in the scope of an identifier with variably modified type that an earlier goto is outside of", name);
+		}
 		funclabel(f, g->label);
 		break;
 	default:
@@ -91,6 +112,8 @@ stmt(struct func *f, struct scope *s)
 	struct value *v;
 	struct block *b[4];
 	struct switchcases swtch;
+	struct gotolabel *g;
+	struct gotouse *u;
 
 	attr(NULL, 0);
 	switch (tok.kind) {
@@ -167,6 +190,7 @@ stmt(struct func *f, struct scope *s)
 		swtch.root = NULL;
 		swtch.type = e->type;
 		swtch.defaultlabel = NULL;
+		swtch.vm = s->vm;
 
 		b[0] = mkblock("switch_cond");
 		b[1] = mkblock("switch_join");
@@ -298,7 +322,16 @@ stmt(struct func *f, struct scope *s)
 	case TGOTO:
 		next();
 		name = expect(TIDENT, "after 'goto'");
-		funcjmp(f, funcgoto(f, name)->label);
+		g = funcgoto(f, name);
+		if (!g->defined) {
+			u = xmalloc(sizeof(*u));
+			u->vm = s->vm;
+			u->next = g->uses;
+			g->uses = u;
+		} else if (!vmvisible(g->vm, s->vm)) {
+			error(&tok.loc, "goto into the scope of an identifier with variably modified type");
+		}
+		funcjmp(f, g->label);
 		expect(TSEMICOLON, "after 'goto' statement");
 		break;
 	case TCONTINUE:
